@@ -22,6 +22,11 @@ PARSER_RULE = ("parser stream: generated ODS + INI pairs (random column permutat
                "optional columns present/absent, crypto-fee acquisitions, numbers with up to 14 decimals) parsed by the real Configuration + parse_ods and by the Lean parser model; "
                "non-trivial = >= 3 transactions parsed, or a faulty input rejected; distinct by content hash")
 
+CLI_RULE = ("cli stream (end to end): 1-3 assets written as a real .ods + .ini pair (crypto-fee acquisitions, sparse years, mixed offsets), one of the five entry points with "
+            "random supported options (method / schedule section, language, from/to windows incl. empty and out-of-range, -n, -a, prefix) run in a forked child under an audit hook; "
+            "exit status, files written, audit events and every report (English-language outputs cell by cell, others for readability) compared with the Lean whole-run model "
+            "(cells -> parser -> engine -> generators -> files); non-trivial = exit 0 with >= 3 report rows, or a faulty invocation rejected; distinct by content hash")
+
 PROPS = {
     "C01": {"streams": [S("engine", 2000, 160000, ["fractions"])], "rule": ENGINE_RULE,
             "assumptions": ["hypothesis SameInstantSameYear (finding F7): events at one instant share a local year"],
@@ -75,12 +80,12 @@ PROPS = {
             "technique": "Lean 4 proof: layout independence of row construction (any column permutation, unmapped columns), ids = row numbers strictly increasing (no row twice), failing row aborts (no row skipped); regenerated parser constants; field-by-field correspondence of parse_ods",
             "text": "Theorems in_row_layout_independent, permuted_columns_same_fields, ids_are_row_numbers, no_row_skipped on the parser model; generated ODS+INI pairs parsed by the real code and the model and compared field by field; oracle compares with the generator's own records.",
             "design_ref": "DESIGN.md §3 C11"},
-    "C12": {"streams": [S("parser", 500, 25000, ["accept-reject", "fields"])], "rule": PARSER_RULE + "; C12: 75% of the cases carry exactly one documented fault (23 cell-level fault kinds at a random applicable row/field, 6 structural faults)",
+    "C12": {"streams": [S("parser", 500, 25000, ["accept-reject", "fields"]), S("cli", 40, 1500, ["exit", "files", "model"])], "rule": PARSER_RULE + "; C12: 75% of the cases carry exactly one documented fault (23 cell-level fault kinds at a random applicable row/field, 6 structural faults)",
             "assumptions": ["known findings F8 (rp2_jp -f -t refused only after two reports) and F14 (generators field ignored) concern the CLI/config layer"],
             "technique": "Lean 4 proof: accepted => valid for the three row constructors (each documented field-level fault makes the constructor fail), failing row aborts the parse, IN table required; accept/reject correspondence on single-fault inputs",
             "text": "Theorems in/out/intra_row_accepted_is_valid, non_numeric_rejected, bad_row_aborts, in_table_required; every generated faulty input must be rejected by the real parser (oracle) and accept/reject must agree with the model.",
             "design_ref": "DESIGN.md §3 C12", "partial": "config-file and command-line faults are exercised by the cli stream (sampling), not yet modelled in Lean"},
-    "C13": {"streams": [S("reports", 60, 3000, ["inout", "taxsheet", "detail", "summary", "status"])], "rule": REP_RULE, "assumptions": [],
+    "C13": {"streams": [S("reports", 60, 3000, ["inout", "taxsheet", "detail", "summary", "status"]), S("cli", 20, 1000, ["legend", "inout", "taxsheet", "detail", "summary", "exit"])], "rule": REP_RULE, "assumptions": [],
             "technique": "Lean 4 proof: every fraction numbered once in order, k/n labels = position among the event's fractions; correspondence of the abstract full report (all tables, cell values as doubles)",
             "text": "Theorems fractions_once_in_order, event_labels, rows_once on the model's numberFractions; rp2_full_report.ods read back and compared cell by cell with the Lean full-report model; oracle compares rows with ComputedData.",
             "design_ref": "DESIGN.md §3 C13"},
@@ -92,7 +97,7 @@ PROPS = {
             "technique": "Lean 4 proof (exact arithmetic): realized + unrealized = acquired per lot and in total, weights add to 1, unit cost distributes; correspondence of the open-positions rows",
             "text": "Theorems realized_plus_unrealized_is_acquired, weights_add_to_one, unit_cost_is_cost_over_balance; open_positions.ods compared row by row with the Lean model; conservation oracle on the real output.",
             "design_ref": "DESIGN.md §3 C15"},
-    "C19": {"streams": [S("reports", 60, 3000, ["links", "inout", "status"])], "rule": REP_RULE, "assumptions": [],
+    "C19": {"streams": [S("reports", 60, 3000, ["links", "inout", "status"]), S("cli", 25, 1000, ["links", "inout", "exit"])], "rule": REP_RULE, "assumptions": [],
             "technique": "Lean 4 proof: with a per-asset row dictionary every shown transaction links to the row it was written at, hidden ones carry no link; correspondence of link targets",
             "text": "Theorem links_lead_to_own_row; hyperlink targets of the real rp2_full_report.ods parsed and compared with the model; oracle follows each link in the real file.",
             "design_ref": "DESIGN.md §3 C19"},
@@ -101,6 +106,23 @@ PROPS = {
             "technique": "Lean 4 proof on the JP report model: sheets = years with transactions, ascending, each once; opening balance chained to the previous existing year sheet; correspondence of sheets/rows/references",
             "text": "Theorem sheets_and_chain (jpAsset_spec) for every input; tax_report_jp.ods sheet names, rows and cross-sheet references compared with the Lean model; chain oracle on the real file.",
             "design_ref": "DESIGN.md §3 C20"},
+    "C16": {"streams": [S("cli", 60, 3000, ["exit", "files", "status", "unreadable", "model"]), S("reports", 40, 2000, ["status"])], "rule": CLI_RULE,
+            "assumptions": ["valid input = no overdraft (unless -n), every disposal covered, hypothesis FeeFiatVisible for rp2_jp (finding F13); rp2_jp with both -f and -t is a documented refusal (finding F8, C12)"],
+            "technique": "Lean 4: template / method / sheet-map obligations decided over tables regenerated from the source; whole-run CLI model (options -> parse -> compute -> generators -> files); end-to-end differential runs of all five entry points over the option matrix",
+            "text": "Theorems default_options_have_templates, shipped_languages_have_all_templates, every_accepted_method_exists, taxable_types_have_a_sheet, files_are_reports; "
+                    "every generated valid input x supported option tuple must exit 0 and write exactly the country's reports (oracle), and exit status / file list must agree with the Lean CLI model.",
+            "design_ref": "DESIGN.md §3 C16", "partial": "failures inside ezodf/lxml/babel or the file system (disk full, permissions) cannot be exhibited by the model; totality of the generator models is validated by correspondence, not yet proved"},
+    "C17": {"streams": [S("cli", 16, 600, ["exit", "files"], parallel=6)], "rule": CLI_RULE + "; C17: each case is re-run as a variant (second identical run, stale output directory, PYTHONHASHSEED=1 vs 2 in fresh interpreters, asset alone vs together)",
+            "assumptions": [],
+            "technique": "Lean 4 proof: time-sorted views are invariant under row permutation when timestamps are distinct; an asset's report rows do not depend on other assets' row dictionary; the model is a pure function; monitored variants of real runs",
+            "text": "Theorems row_order_irrelevant, asset_rows_independent_of_other_assets; real runs repeated under four kinds of variation must produce identical reports (oracle).",
+            "design_ref": "DESIGN.md §3 C17", "partial": "iteration order inside CPython sets/dicts and third-party libraries is sampled (hash seeds 1, 2), not proved"},
+    "C18": {"streams": [S("cli", 40, 1500, ["exit", "files"])], "rule": CLI_RULE + "; C18: 30% of the invocations carry an option/config fault so that failing runs are audited too",
+            "assumptions": [],
+            "technique": "Lean 4: forbidden-import / dangerous-call / dynamic-import / open-mode predicates decided (decide +kernel) over a table rebuilt from every .py file of the package; written files = report names theorem on the CLI model; audit-hook monitoring of real runs",
+            "text": "Theorems no_networking_or_process_import, no_process_or_dynamic_code_call, dynamic_imports_load_rp2_plugins_only, own_opens_are_read_only, written_files_are_reports; "
+                    "every end-to-end run (valid and invalid) is executed under sys.addaudithook: no socket/subprocess event, writes confined to the output directory and ./log, inputs byte-identical.",
+            "design_ref": "DESIGN.md §3 C18", "partial": "audit hooks do not see I/O done directly by C extensions; third-party packages are covered only on the paths the runs take"},
 }
 
 PENDING = {}
